@@ -6,6 +6,7 @@
 (* Refinement checked by TLC on every generated program prefix               *)
 (* (FickGen.tla):  FickVM does not raise  =>  FProj(f) = PickleVM!Proj(s).   *)
 EXTENDS PickleVM
+CONSTANT PinnedAddItems     \* FALSE: as coded after the fix; TRUE: ADDITEMS also pops the set (the pinned defect)
 
 \* node kinds on the symbolic stack
 \*   "mark" MarkObject | "const" ast.Constant | "name" ast.Name (global or _varN) | "tuple" | "list" | "dict0" empty
@@ -59,7 +60,7 @@ FEff(op, f) ==
                                                            IF stk[mi - 1] = "dict0" THEN (IF n = mi THEN "dict0" ELSE "dict") ELSE "name")]
     [] op.o = "ADDITEMS" -> IF mi < 2 THEN FErr(f)
                             ELSE IF stk[mi - 1] \notin {"set", "any"} THEN FErr(f)       \* "expected to be a set-like object"
-                            ELSE [f EXCEPT !.stack = below]
+                            ELSE [f EXCEPT !.stack = IF PinnedAddItems THEN SubSeq(stk, 1, mi - 2) ELSE below]
     [] op.o \in {"REDUCE", "NEWOBJ"} -> popN(2, "name")
     [] op.o = "NEWOBJ_EX" -> popN(3, "name")
     [] op.o = "OBJ"   -> IF mi = 0 \/ n = mi THEN FErr(f) ELSE [f EXCEPT !.stack = Append(below, "name")]
